@@ -102,6 +102,46 @@ pub fn check_case(case: &MapCase, st: &mut Stats) -> Check {
     Ok(())
 }
 
+pub fn check_corpus(c: &CorpusAstCase, st: &mut Stats) -> Check {
+    let Some((bytes, ast)) = load_corpus_ast(c)? else {
+        st.class("corpus file not fully classified by the strict recogniser (skipped)");
+        return Ok(());
+    };
+    st.class("corpus file checked against the reference model");
+    let model = Model::new(&ast);
+    classify(&model, st);
+    let mut u = sampled_universe(&ast, c.max_classes, c.pick);
+    // class lookups: every class of the file, not only the sample
+    u.other_classes.extend(ast.blocks.iter().map(|b| format!("{}x", b.obf)));
+    let all: Vec<String> = ast.blocks.iter().map(|b| b.obf.clone()).collect();
+    let case_hash = crate::engine::fnv64(&bytes) ^ c.pick;
+    st.sample(|| json!({"corpus file": c.path, "crlf": c.crlf, "classes": ast.blocks.len(), "classes sampled for method lookups": u.known_classes.len()}));
+    let m_plain = mapper(&bytes, false)?;
+    let buf = write_cache(&bytes)?;
+    let cache = parse_cache(&buf)?;
+    let impls: [&dyn Retracer; 2] = [&m_plain, &cache];
+    for (ii, r) in impls.into_iter().enumerate() {
+        no_panic("query", || {
+            let mut scratch = Stats::new();
+            let target: &mut Stats = if ii == 0 { st } else { &mut scratch };
+            for c in &all {
+                target.evaluations += 1;
+                let got = r.class(c);
+                if got != model.class(c) {
+                    return Err(Fail::new("model-class", format!("{}: remap_class({c:?}) = {got:?}, model says {:?}", r.name(), model.class(c))));
+                }
+            }
+            check_class_model(r, &model, &u, case_hash, target)?;
+            check_methods_model(r, &model, &u, case_hash, target)?;
+            if ii != 0 {
+                st.evaluations += scratch.evaluations;
+            }
+            Ok(())
+        })?;
+    }
+    Ok(())
+}
+
 pub fn wide_case(max: usize) -> BoxedStrategy<MapCase> {
     (wide_file(max, &cfg()), crate::gen::mapping::render_cfg(), any::<u64>())
         .prop_map(|(file, render, key)| MapCase { file, render, key })
@@ -117,6 +157,8 @@ pub fn run(ctx: &Ctx) -> Report {
     let nw = ctx.cases(100, 1500);
     let max = ctx.tier.pick(150, 400);
     rep.run_stage("wide", move || wide_case(max), nw, check_case);
+    let corpus = corpus_ast_cases(40, 150, 4, ctx);
+    rep.run_enum("corpus", &corpus, check_corpus);
     rep
 }
 
@@ -124,6 +166,7 @@ pub fn replay(stage: &str, case: &Value) -> Check {
     let mut st = Stats::new();
     match stage {
         "ast" | "wide" => check_case(&serde_json::from_value(case.clone()).map_err(|e| Fail::new("harness-replay", e.to_string()))?, &mut st),
+        "corpus" => check_corpus(&serde_json::from_value(case.clone()).map_err(|e| Fail::new("harness-replay", e.to_string()))?, &mut st),
         _ => Err(Fail::new("harness-replay", format!("unknown stage {stage}"))),
     }
 }
